@@ -139,7 +139,11 @@ def run(prop, ctx, results):
                 except build.InfraError as e:
                     neg.append({'refactoring': x, 'status': 'broken'})
                     continue
-                keys = [f.key for rr in res for f in rr.findings]
+                # an open known finding of the unchanged tree is present in every copy of it: suppressed by exact (property, key), as
+                # bin/check does - the negative control asks whether the refactoring ADDS an alarm
+                from .check import load_known
+                _known = {(k['property'], k['key']) for k in load_known().get('open', [])}
+                keys = [f.key for rr in res for f in rr.findings if (prop, f.key) not in _known]
             finally:
                 c2.close()
             neg.append({'refactoring': x, 'status': 'silent' if not keys else 'ALARM', 'keys': keys[:4]})
